@@ -224,9 +224,12 @@ bid_get_line(struct archive_read_filter *filter,
 		len = get_line(*b, *avail, nl);
 
 	/*
-	 * Read bytes more while it does not reach the end of line.
+	 * Read bytes more while it does not reach the end of line, or
+	 * while the line ends together with the bytes we have: the caller
+	 * looks at what follows the line, and that must not depend on where
+	 * a read block happened to end.
 	 */
-	while (*nl == 0 && len == *avail && !quit &&
+	while (len == *avail && !quit &&
 	    *nbytes_read < UUENCODE_BID_MAX_READ) {
 		ssize_t diff = *ravail - *avail;
 		size_t nbytes_req = (*ravail+1023) & ~1023U;
@@ -239,8 +242,10 @@ bid_get_line(struct archive_read_filter *filter,
 
 		*b = __archive_read_filter_ahead(filter, nbytes_req, avail);
 		if (*b == NULL) {
-			if (*ravail >= *avail)
+			if (*avail < 0 || (*nl == 0 && *ravail >= *avail)) {
+				*nl = 0;
 				return (0);
+			}
 			/* Reading bytes reaches the end of a stream. */
 			*b = __archive_read_filter_ahead(filter, *avail, avail);
 			quit = 1;
@@ -249,6 +254,8 @@ bid_get_line(struct archive_read_filter *filter,
 		*ravail = *avail;
 		*b += diff;
 		*avail -= diff;
+		if (*nl != 0)
+			break;/* The line was complete already. */
 		tested = len;/* Skip some bytes we already determined. */
 		len = get_line(*b + tested, *avail - tested, nl);
 		if (len >= 0)
